@@ -955,6 +955,18 @@ before `return Ok(Some(BlockstoreEvent::FirstShred(self.slot)));`
 }
 
 impl SlotBlockData {
+/*@ extract src/consensus/blockstore/slot_block_data.rs :: impl SlotBlockData/fn disseminated_is
+props C13 C14
+ret r
+ensures
+        r == (self.disseminated.completed matches Some(c) && c.0 == *hash),
+@*/
+/*@ extract src/consensus/blockstore/slot_block_data.rs :: impl SlotBlockData/fn repaired_is_complete
+props C13 C14
+ret r
+ensures
+        r == (self.repaired@.contains_key(*hash) && self.repaired@[*hash].completed is Some),
+@*/
 /*@ extract src/consensus/blockstore/slot_block_data.rs :: impl SlotBlockData/fn add_shred_from_dissemination
 props C13
 ret r
@@ -964,6 +976,10 @@ requires
 ensures
         final(self).disseminated.wf(),
         !(r matches Ok(Some(BlockstoreEvent::InvalidBlock(_)))),
+        // [C13.block_is_announced_once_across_dissemination_and_repair] a block that repair has completed (and announced) already is
+        // completed silently by dissemination (finding F31)
+        r matches Ok(Some(BlockstoreEvent::Block { slot, block_info })) ==>
+            !(old(self).repaired@.contains_key(block_info.hash) && old(self).repaired@[block_info.hash].completed is Some),
         // [C13.nothing_from_dissemination_after_misbehaviour]
         old(self).leader_misbehaved ==> r is Err && final(self).disseminated == old(self).disseminated,
         final(self).leader_misbehaved == old(self).leader_misbehaved && final(self).repaired == old(self).repaired,
